@@ -10,8 +10,12 @@ from collections import defaultdict, deque
 
 class Facts:
     def __init__(self, path):
+        import normalize
         with open(path) as f:
-            self.raw = json.load(f)
+            self.raw, self.norm_log = normalize.apply(f.read())
+        for b in self.raw["bodies"]:
+            if b.get("name") and not b["path"].endswith(b["name"]) and b.get("promoted") is None and "{" not in b["path"].rsplit("::", 1)[-1]:
+                b["name"] = b["path"].rsplit("::", 1)[-1]
         self.bodies = []
         self.by_path = defaultdict(list)
         for b in self.raw["bodies"]:
@@ -292,7 +296,9 @@ class Body:
     def expr_of_operand(self, op, depth=30, at=None):
         k = op["k"]
         if k == "const":
-            return Const(op["c"])
+            c = Const(op["c"])
+            c.owner = self
+            return c
         if k in ("copy", "move"):
             return self.expr_of_place(op["place"], depth, at)
         return Unknown(op.get("dbg", "?"))
@@ -331,7 +337,10 @@ class Body:
             return Var(l, name or ("arg%d" % l), self.locals[l]["ty"], is_arg=True)
         ds = self.defs.get(l, [])
         if depth <= 0 or len(ds) != 1 or self.partial_defs.get(l):
-            return Var(l, name or ("_%d" % l), self.locals[l]["ty"])
+            v = Var(l, name or ("_%d" % l), self.locals[l]["ty"])
+            if depth > 0 and len(ds) > 1 and not self.partial_defs.get(l):
+                v.ok_payload = self._ok_payload(ds, depth)
+            return v
         if name is not None and self.locals[l]["mut"]:
             return Var(l, name, self.locals[l]["ty"])
         bi, si, kind, node = ds[0]
@@ -342,6 +351,25 @@ class Body:
         e.site = (bi, si)
         if name is not None:
             e = Named(name, l, e, self.locals[l]["ty"])
+        return e
+
+    def _ok_payload(self, ds, depth):
+        """For a Result/Option local with several definitions of which exactly one builds the
+        success variant (all others build the failure variant or propagate a residual): the
+        payload of that success value. `x?` on such a local continues with exactly this payload."""
+        ok = []
+        for bi, si, kind, node in ds:
+            if kind == "assign" and node["rv"]["k"] == "agg" and node["rv"].get("ak") == "adt" and node["rv"].get("adt") in ("core::result::Result", "core::option::Option"):
+                if node["rv"].get("variant") in ("Ok", "Some"):
+                    ok.append((bi, si, node))
+                continue
+            if kind == "call" and (node.get("callee") or "").endswith("FromResidual::from_residual"):
+                continue
+            return None
+        if len(ok) != 1:
+            return None
+        bi, si, node = ok[0]
+        e = self.expr_of_operand(node["rv"]["ops"][0], depth - 1)
         return e
 
     def expr_of_call(self, t, depth=30):
@@ -365,7 +393,9 @@ class Body:
         if k == "discr":
             return Discr(self.expr_of_place(rv["place"], depth))
         if k == "agg":
-            return Agg(rv, [self.expr_of_operand(o, depth) for o in rv["ops"]])
+            a = Agg(rv, [self.expr_of_operand(o, depth) for o in rv["ops"]])
+            a.owner = self
+            return a
         if k == "repeat":
             return Unknown("repeat")
         return Unknown(rv.get("dbg", k))
